@@ -300,12 +300,13 @@ theorem defs_exec (call : CallFn N) (ρ : ExtOracle N) (k : Nat) (L : Layout) (v
         infos.map (fun m => (m.name, m.body)) = todo ∧
         execSs call ρ (k + 1) ⟨L.locals0, va⟩ (todo.map fun nb => moduleDefinition L.M nb.1 nb.2) σ
           = .ok (.next ⟨L.locals0, va⟩) σ' ∧
-        Pre L (done ++ infos) [] σ' := by
+        Pre L (done ++ infos) [] σ' ∧
+        σ' = todo.foldl (fun s nb => afterDefinition L.M nb.1 nb.2 L.locals0 L.tM s) σ := by
   intro todo
   induction todo with
   | nil =>
     intro done σ hpre _ _
-    exact ⟨[], σ, rfl, by simp [execSs], by simpa using hpre⟩
+    exact ⟨[], σ, rfl, by simp [execSs], by simpa using hpre, rfl⟩
   | cons nb rest ih =>
     intro done σ hpre hnodup hcache
     obtain ⟨name, body⟩ := nb
@@ -387,9 +388,11 @@ theorem defs_exec (call : CallFn N) (ρ : ExtOracle N) (k : Nat) (L : Layout) (v
         rw [hgetC]; exact hpre.freeSlot nb' (List.mem_cons_of_mem _ hnb')
     have hnodup1 : (((done ++ [m]).map fun m => bytesOf m.name) ++ (rest.map fun nb => bytesOf nb.1)).Nodup := by
       simpa [List.map_append, List.append_assoc] using hnodup
-    obtain ⟨infos, σ', hmap, hexec, hpre'⟩ := ih (done ++ [m]) σ1 hpre1 hnodup1
+    obtain ⟨infos, σ', hmap, hexec, hpre', hfold⟩ := ih (done ++ [m]) σ1 hpre1 hnodup1
       (fun nb' hnb' => hcache nb' (List.mem_cons_of_mem _ hnb'))
-    refine ⟨m :: infos, σ', by simp [hmap]; exact ⟨rfl, rfl⟩, ?_, by simpa [List.append_assoc] using hpre'⟩
+    refine ⟨m :: infos, σ', by simp [hmap]; exact ⟨rfl, rfl⟩, ?_, by simpa [List.append_assoc] using hpre', ?_⟩
+    rotate_left
+    · rw [hfold]; rfl
     simp only [List.map_cons, execSs, hex, Res.bind]
     exact hexec
 
@@ -414,7 +417,9 @@ theorem prelude_establishes (call : CallFn N) (ρ : ExtOracle N) (k : Nat) (env 
       infos.map (fun m => (m.name, m.body)) = mods ∧
       execSs call ρ (k + 1) env (prelude M mods) σ
         = .ok (.next ⟨(M, σ.cells.length) :: env.locals, env.varargs⟩) σ' ∧
-      BI (layoutOf M env σ) infos (fun _ => none) σ' := by
+      BI (layoutOf M env σ) infos (fun _ => none) σ' ∧
+      σ' = mods.foldl (fun s nb => afterDefinition M nb.1 nb.2 ((M, σ.cells.length) :: env.locals) σ.tables.length s)
+        (afterTable σ) := by
   have hcell : (afterTable σ).getCell σ.cells.length = .tbl σ.tables.length := by
     simp [afterTable, State.getCell, State.allocCell, State.rawSet, State.setTable, State.allocTable]
   have hT : (afterTable σ).getTable σ.tables.length
@@ -441,9 +446,9 @@ theorem prelude_establishes (call : CallFn N) (ρ : ExtOracle N) (k : Nat) (env 
       exact hne'
     · intro nb _
       simp [layoutOf, State.rawGet, hTC, rawGetEntries]
-  obtain ⟨infos, σ', hmap, hexec, hpre'⟩ := defs_exec call ρ k (layoutOf M env σ) env.varargs mods [] (afterTable σ)
-    hpre (by simpa using hnodup) hcache
-  refine ⟨infos, σ', hmap, ?_, ⟨hpre'.infra, ?_, ?_⟩⟩
+  obtain ⟨infos, σ', hmap, hexec, hpre', hfold⟩ := defs_exec call ρ k (layoutOf M env σ) env.varargs mods []
+    (afterTable σ) hpre (by simpa using hnodup) hcache
+  refine ⟨infos, σ', hmap, ?_, ⟨hpre'.infra, ?_, ?_⟩, hfold⟩
   · have hdo := exec_do_block call ρ (k + 1) _ _ _ _ _ hexec
     cases mods with
     | nil => exact absurd rfl hne
